@@ -45,6 +45,7 @@ def run_case(c):
     kept = []          # (returned array reference, copy at return time, description)
     kept_args = []     # (array the caller passed in, copy at call time, description): must never change later either
     last_inverse = None
+    workbuf = None
     cnt = {"image": 0, "inverse": 0, "preimages": 0, "setbounds": 0}
 
     def fresh():
@@ -96,7 +97,16 @@ def run_case(c):
                     obs["roundtrip_args"] = obs.get("roundtrip_args", 0) + 1
                     if how == 0:
                         how = 9          # the same object
-            if isint:
+            if not isint and how != 9 and rng.random() < 0.25:
+                # the caller's own work buffer, refilled in place and passed again and again
+                if workbuf is None:
+                    workbuf = np.zeros(N, dtype=np.double)
+                workbuf[:] = np.asarray(y, dtype=np.double)
+                how = 8
+                obs["work_buffer_args"] = obs.get("work_buffer_args", 0) + 1
+            if how == 8:
+                arg = workbuf
+            elif isint:
                 arg = y if how % 2 == 0 else np.array(y)
                 obs["integer_typed_args"] = obs.get("integer_typed_args", 0) + 1
             elif how == 9:
@@ -121,7 +131,7 @@ def run_case(c):
                 if len(viol) < 5:
                     viol.append({"mech": "inverse-depends-on-history", "op": k, "y": [float(v) for v in y], "got": float(got), "fresh": float(ref),
                                  "lower": lo, "upper": hi, "N": N, "m": m})
-            if isinstance(arg, np.ndarray) and how != 9:
+            if isinstance(arg, np.ndarray) and how not in (8, 9):
                 kept_args.append((arg, np.array(arg, copy=True), "%s argument at op %d" % (which, k)))
             changed = (not same(arg, snap)) if isinstance(arg, np.ndarray) else (list(arg) != list(snap))
             if changed:
@@ -166,7 +176,7 @@ def run_case(c):
 
 
 def finalize(obs, tier, stats):
-    for k in ("ops_image", "ops_inverse", "ops_preimages", "ops_setbounds", "integer_typed_args", "roundtrip_args", "image_of_previous_inverse", "box_special", "box_unit", "box_far", "kept_argument_arrays_rechecked"):
+    for k in ("ops_image", "ops_inverse", "ops_preimages", "ops_setbounds", "integer_typed_args", "roundtrip_args", "image_of_previous_inverse", "box_special", "box_unit", "box_far", "kept_argument_arrays_rechecked", "work_buffer_args"):
         if not obs.get(k):
             return "operation class %s never exercised" % k, {}
     return None, {}
